@@ -2,7 +2,7 @@
    Print Assumptions.  [reachable c s]: s is reached from the empty queue by ANY finite sequence of atomic
    sections (labels) of any number of producers, consumers, completions, cancellations and a shutdown —
    i.e. every interleaving; sizes are arbitrary integers (in-memory) / arbitrary non-negative (persistent). *)
-From Verif Require Import Common.Base C02.Model C02.Proofs C02.Proofs2 C02.Proofs3 C02.Proofs4 C02.Proofs5 C02.Proofs6 C02.Proofs7 C02.Proofs8 C02.Obligations Generated.C02Queue C02.PropCheck C02.PropCheckProofs.
+From Verif Require Import Common.Base C02.Model C02.Proofs C02.Proofs2 C02.Proofs3 C02.Proofs4 C02.Proofs5 C02.Proofs6 C02.Proofs7 C02.Proofs8 C02.Obligations Generated.C02Queue C02.PropCheck C02.PropCheckProofs C02.Link.
 Local Open Scope Z_scope.
 
 (* --- reported size -------------------------------------------------------------------------------------- *)
@@ -207,8 +207,8 @@ Proof. exact (fun c s p Hc R => reach_awaitinv c s Hc R p). Qed.
 
 (* --- round 3 ---------------------------------------------------------------------------------------------------- *)
 (* THE IFF.  In a quiescent reachable state somebody is still inside Offer exactly when the state has the F3 shape
-   or the S1 shape (Model.f3_shape / s1_shape); the S1 shape needs an oversized Offer to a persistent queue somewhere
-   in the history; the F3 shape always contains a cancelled producer that never gets its context error. *)
+   (Model.f3_shape); since the repair of S1 the S1 shape (Model.s1_shape) is unreachable: ~ s1_shape s (it used to need an oversized
+   Offer in the history); the F3 shape always contains a cancelled producer that never gets its context error. *)
 Theorem no_lost_wakeup_iff : forall c s,
   0 <= cap c -> reachable c s -> quiescent c s ->
   (stuck s <-> f3_shape s) /\ ~ s1_shape s /\
@@ -393,6 +393,34 @@ Proof. exact done_and_list_api_is_modelled_l. Qed.
 Theorem prop_ok_sound : forall cs, prop_ok cs = true <-> Clauses cs.
 Proof. exact prop_ok_sound_l. Qed.
 
+(* clause "every accepted request is handed to a consumer", liveness half: when the queue's own activity has come to
+   rest with the mutex free (outside the F3 deadlock) everything accepted has been handed over and finished, nothing is
+   queued or in flight, the size is 0 and every producer has returned *)
+Theorem accepted_handed_and_finished_at_quiescence : forall c s,
+  0 <= cap c -> reachable c s -> quiescent c s -> lock s = Free ->
+  hand s = acc s /\ items s = [] /\ inflight s = [] /\ size s = 0 /\
+  (forall id, In id (acc s) -> In id (map fst (fin s))) /\ all_returned s.
+Proof. exact accepted_handed_and_finished_at_quiescence_l. Qed.
+
+(* THE CHECKER LINKED BACK TO THE MODEL.  [observed_case c ls] is the observed-case record built from the MODEL's own
+   run of the labels ls, the way the harness builds it from the implementation's run (Link.observe).  For every
+   configuration with capacity >= 0 and every label sequence under the theorems' well-formedness guard (wf_label) in
+   the harness's coding of faulty offers (obs_label), what the model produces satisfies the checker's clauses B (size
+   within 0..capacity), Z (zero when nothing accepted is unfinished) and H (hand-off exactly once, never of a refused
+   id, in acceptance order) — so the checker never demands more than the model delivers on these clauses, and its
+   verdicts and the theorems above are statements about the same thing.  Clause M (in-memory size = summed size of the
+   accepted-but-unfinished requests, as reconstructed from the Offer labels) is NOT linked: it needs a simulation of
+   the checker's size table (szof) against the sizes stored in items / inflight through every enqueue of a woken
+   producer; mq_size_exact proves the clause of the model's own state, the checker's reconstruction of it is validated
+   empirically only (0 violations on all cases of every run). *)
+Theorem model_passes_checker_BZH : forall c ls,
+  0 <= cap c -> Forall (lnk_label c) ls ->
+  let cs := observed_case c ls in
+  Forall (Clause_bounds (zcap cs)) (snaps h0 (snd cs)) /\
+  Forall Clause_zero (snaps h0 (snd cs)) /\
+  Clause_handoff (final_hist (snd cs)).
+Proof. exact Link.model_passes_checker_BZH. Qed.
+
 Print Assumptions mq_size_exact.
 Print Assumptions pq_size_bounds.
 Print Assumptions offer_refused_iff.
@@ -434,3 +462,5 @@ Print Assumptions persistent_queue_api_is_modelled.
 Print Assumptions async_queue_api_is_modelled.
 Print Assumptions done_and_list_api_is_modelled.
 Print Assumptions prop_ok_sound.
+Print Assumptions accepted_handed_and_finished_at_quiescence.
+Print Assumptions model_passes_checker_BZH.
